@@ -391,10 +391,18 @@ func Cmp(op string, a, b *Term) *Term {
 // Parameters of reference type get rank -1 (they are < alloc_0 but not ordered among themselves).
 var allocRanks = map[string]int{}
 
+var entryOnlyHook func(t *Term) bool
+
 func idRank(t *Term) (rank int, off int64, ok bool) {
 	if t.Kind == kVar {
 		r, ok := allocRanks[t.Op]
-		return r, 0, ok
+		if ok {
+			return r, 0, ok
+		}
+	}
+	// an object id computed from entry-state symbols only (parameters, the initial heap) existed at function entry
+	if t.Kind != kLit && entryOnlyHook != nil && entryOnlyHook(t) {
+		return -1, 0, true
 	}
 	if t.Kind == kApp && t.Op == "+" && len(t.Args) == 2 && t.Args[0].Kind == kVar && t.Args[1].Kind == kLit {
 		if r, ok := allocRanks[t.Args[0].Op]; ok && r >= 0 {
@@ -438,6 +446,10 @@ func Store(arr, idx, val *Term) *Term {
 	_, v := arr.Sort.ArrayParts()
 	if val.Sort != v {
 		panic(fmt.Sprintf("store sort mismatch: array %s value %s:%s", arr.Sort, val, val.Sort))
+	}
+	// overwriting the same index: the earlier store is dead
+	if arr.Kind == kApp && arr.Op == "store" && arr.Args[1].String() == idx.String() {
+		arr = arr.Args[0]
 	}
 	return App("store", arr.Sort, arr, idx, val)
 }
@@ -653,6 +665,49 @@ func (u *Universe) ScriptAbstract(assumptions []*Term, goal *Term) string {
 
 // scriptMode: bit 0 = abstract nonlinear arithmetic; bit 1 = sidx without its defining equation (injectivity only).
 var sidxInjective *Term
+
+// stripUserPatterns removes the explicit triggers of quantifiers that come from contracts (bound variables q_*),
+// leaving trigger selection to the solver.
+func stripUserPatterns(t *Term) *Term {
+	switch t.Kind {
+	case kLit, kVar:
+		return t
+	case kQuant:
+		nt := &Term{Op: t.Op, Sort: t.Sort, Kind: kQuant, Bound: t.Bound}
+		nt.Args = []*Term{stripUserPatterns(t.Args[0])}
+		user := len(t.Bound) > 0 && strings.HasPrefix(t.Bound[0].Op, "q_")
+		if !user {
+			nt.Pats = t.Pats
+		}
+		return nt
+	}
+	if len(t.Args) == 0 {
+		return t
+	}
+	na := make([]*Term, len(t.Args))
+	changed := false
+	for i, a := range t.Args {
+		na[i] = stripUserPatterns(a)
+		if na[i] != a {
+			changed = true
+		}
+	}
+	if !changed {
+		return t
+	}
+	return &Term{Op: t.Op, Sort: t.Sort, Kind: t.Kind, Args: na}
+}
+
+func (u *Universe) ScriptVariant3(assumptions []*Term, goal *Term, abstractNL, sidxUninterpreted, noUserPats bool) string {
+	if noUserPats {
+		as := make([]*Term, len(assumptions))
+		for i, a := range assumptions {
+			as[i] = stripUserPatterns(a)
+		}
+		return u.ScriptVariant(as, stripUserPatterns(goal), abstractNL, sidxUninterpreted)
+	}
+	return u.ScriptVariant(assumptions, goal, abstractNL, sidxUninterpreted)
+}
 
 func (u *Universe) ScriptVariant(assumptions []*Term, goal *Term, abstractNL bool, sidxUninterpreted bool) string {
 	as := assumptions
